@@ -1,5 +1,6 @@
 """Per-property checks: obligations, tie, statement oracle, search, evidence."""
 import json
+import sys
 import os
 import random
 import time
@@ -1463,6 +1464,61 @@ def run_C08(ctx):
         ctx.report('obligation:' + broken[0], f'proof obligation(s) no longer check: {broken[:5]}', {'broken': broken}, found=False)
 
 
+def run_C09(ctx):
+    import c09_oracle
+    sys.path.insert(0, os.path.join(VERIF, 'tools'))
+    import c09_gates
+    broken = check_obligations(ctx, PROPS['C09']['theorems'])
+    gen = ctx.gen_info
+    for f in gen.get('failed', []):
+        ctx.notes.append('generator failure: ' + str(f)[:500])
+    obl = gen.get('c09_obligations', {})
+    counts = {}
+    for y, d in sorted(obl.items()):
+        if not isinstance(d, dict):
+            continue
+        for t in d.get('theorems', []):
+            ctx.obligations.append({'name': f"Gen.C09_{y}.{t['id']}", 'ok': bool(t.get('status') in ('proved', 'extra') and ctx.build_ok),
+                                    'check': f"{y} gate {t.get('gate', '')} line {t.get('class')}.{t.get('line', '')} ({t.get('mode', 'form')}): {t.get('info', '')}"[:200]})
+        counts[y] = d.get('gate_status_counts')
+    failed = gen.get('c09_failed', [])
+    cmp_ = c09_gates.compare()
+    ctx.gen_info = {'gate_status_counts': counts, 'failed_ids': [f"{f.get('year')}:{f.get('id')}" for f in failed],
+                    'analysis_inconclusive': {y: d.get('analysis_inconclusive') for y, d in obl.items() if isinstance(d, dict)},
+                    'survey_vs_reviewed': {y: {k: v for k, v in c.items() if isinstance(v, int)} for y, c in cmp_.items()}}
+    res = c09_oracle.run(ctx.seed, ctx.tier)
+    ctx.statement['c09-gates'] = {
+        'checked': res['checked'], 'distinct_nontrivial': res['checked'], 'violations': len(res['violations']),
+        'scenarios': res.get('scenarios'), 'unexercised': res['unexercised'], 'distribution': res.get('distribution'),
+        'rule': 'for every reviewed gate (year, input, declaring answer): REAL solves of scenarios in which the gate has its declaring answer, with read-logging accessors; violation = the return SOLVED although an evaluated line read the gate; one case = one (scenario, gate) pair in which the gate was actually read',
+        'samples': res.get('samples', [])[:2]}
+    by_gate = {(v['year'], v['gate']): v for v in res['violations']}
+    reported = 0
+    for f in failed:
+        fid = f"c09_{f.get('year')}_{f.get('gate', f.get('class'))}"
+        v = by_gate.pop((f.get('year'), f.get('gate')), None)
+        what = f"{f.get('year')} gate {f.get('gate')}: line {f.get('class')}.{f.get('line')} can return a value although the gate is affirmative ({f.get('witness')})"
+        rep = {'obligation': f.get('id'), 'witness': f.get('witness')}
+        if v is not None:
+            rep = dict(rep, kind='scenario', case=v['replay'])
+            what += '; ' + v['what']
+        known = ctx.matches_known(fid) is not None
+        ctx.report(fid, what, rep, found=v is not None or known)
+        reported += 1
+    for (y, g), v in by_gate.items():
+        ctx.report(v['key'], v['what'], {'kind': 'scenario', 'case': v['replay']})
+        reported += 1
+    for y, c in cmp_.items():
+        for kind in ('gates_not_in_survey', 'gates_not_declared', 'unclassified', 'polarity_mismatch'):
+            for g in c.get(kind, []):
+                ctx.report(f'c09_{y}_{g}:{kind}', f'{y}: {g}: {kind} (the syntactic survey of guards and the reviewed gate list disagree: a guard was dropped, rewritten, or a new guarded input is unclassified)', {'survey': {kind: g, 'year': y}}, found=False)
+                reported += 1
+    if not ctx.build_ok and not reported:
+        ctx.report('obligation:build', 'generated obligations no longer build (Python mirror and Lean analysis disagree, or the model changed)', {'log': ctx.build_log[-2000:]}, found=False)
+    elif broken and not reported:
+        ctx.report('obligation:' + broken[0], f'proof obligation(s) no longer check: {broken[:5]}', {'broken': broken}, found=False)
+
+
 def run_C16(ctx):
     import tax_oracles as to
     import scenarios as sc
@@ -1552,6 +1608,11 @@ PROPS = {
     'C08': dict(run=run_C08, theorems=['HabuVerif.C08.run_congr', 'HabuVerif.C08.run_agrees', 'HabuVerif.C08.allSome_cons', 'HabuVerif.C08.table_has_standard_deductions'],
         assumptions=['the table of published amounts (tools/c08_statutory.json, mirrored in Spec/Statutory.lean, 68 amounts x years x statuses with citations) was entered independently of the code and is trusted as entered; 5 amounts are listed as unverified and not checked',
                      'the site survey (tools/c08_sites.py) and the reviewed site map (tools/c08_map.json) decide WHERE an amount is expected; 34 sites per year are uncovered (31 of them the NC consumer-use-tax table) and listed in the evidence']),
+    'C09': dict(run=run_C09, theorems=['HabuVerif.Gates.' + t for t in [
+        'cannotReturn_sound', 'noReturnAfterRead_sound', 'checkLine_never_sound', 'checkLine_afterRead_sound',
+        'gate_blocks_form', 'gate_blocks_line', 'gate_read_blocks']],
+        assumptions=['the reviewed gate list tools/c09_gates.json (which inputs declare an unsupported situation, and by which answer) is the specification; it is compared on every run with a syntactic survey of all guards of not_implemented() calls in the regenerated programs',
+                     'PARTIAL: for 10-12 gates per year the abstract interpretation is inconclusive (value reaches the guard through another line, float limits, another reader legitimately returns); these are decided by the oracle on real solves only; completeness of the reader list per gate is by syntactic scan, not proved']),
     'C15': dict(run=run_C15, theorems=['HabuVerif.C15.' + t for t in [
         'shapes_2021', 'shapes_2022', 'shapes_2023', 'overpayment_and_amount_owed', 'refund_and_applied',
         'solved_return_balances', 'stored_money_is_cent_valued', 'over_owed', 'refund_split']],
